@@ -62,7 +62,117 @@ def obligations(tier):
         L.append(ob("html/full/n=%d" % n, "v1", "VerifC09HTML", [n, 0, ""], covers=["verbatim"] + (["escaped"] if n else [])))
     for i, t in enumerate(HT_Q if q else HT_T):
         L.append(ob("html/t%d" % i, "v1", "VerifC09HTML", [0, 0, t], covers=["escaped"] if any(c in t for c in ("<", ">", "&", "XYZ", "XYW")) else ["verbatim", "escaped"]))
+    L += typed_obligations(q)
     f = os.environ.get("C09_ONLY")
     if f:
-        L = [o for o in L if f in o["id"]]
+        L = [o for o in L if any(x in o["id"] for x in f.split(","))]
+    return L
+
+
+# ---- reflection-based entry points (harness v1/zz_verif_c09_typed.go) ----------------------
+# skeletons: '?' = unconstrained byte, %XY = byte 0xXY
+OKERR = ["ok", "error"]
+OK = ["ok"]
+# Marshal: (kind, variant, skeleton, covers, quick?)
+TM = [
+    (0, 0, "?", OK, 1), (0, 1, "<", OK, 1), (0, 2, "?", OK, 1), (0, 3, "a", OK, 1),
+    (1, 0, "", OK, 1), (1, 1, "?", OK, 1),
+    (2, 0, "", OK, 1), (2, 1, "?", OK, 1), (2, 2, "?", OK, 1), (2, 3, "?", OK, 1),
+    (3, 0, "", OK, 1), (3, 1, "??", OK, 1), (3, 2, "?", OK, 1),
+    (4, 0, "", OK, 1), (4, 1, "?", OK, 1), (4, 2, "?", OK, 1),
+    (5, 0, "?", OKERR, 1), (5, 0, ' [?, "?"] ', OKERR, 0), (5, 1, "??", OK, 1), (5, 2, "[?]", OKERR, 1), (5, 3, "?", OKERR, 1),
+    (6, 0, "?", OKERR, 1), (6, 0, '{"a" :?}', OKERR, 1), (6, 0, '{"?" :?}', OKERR, 0), (6, 1, "?", OKERR, 1), (6, 2, "[?]", OKERR, 1), (6, 3, "", OK, 1),
+    (7, 0, "??", OK, 1), (7, 0, "%E2%80?", OK, 1), (7, 1, "?&", OK, 1), (7, 2, "?%FF", OK, 1), (7, 4, "?", OK, 1),
+    (7, 0, "???", OK, 0), (7, 1, "%E2??", OK, 0),
+]
+SYN = ["ok", "syntax-error"]
+SEM = ["ok", "semantic-error"]
+ALL3 = ["ok", "syntax-error", "semantic-error"]
+# Unmarshal: (kind, variant, skeleton, covers, quick?)
+TU = [
+    # struct tags: names (case-insensitive), kinds, `string` option, duplicates, unknown members
+    (0, 0, '{"?":1}', ALL3, 1), (0, 0, '{"a":??}', ALL3, 1), (0, 0, '{"e":"?"}', ALL3, 1), (0, 0, '{"e":?}', ["syntax-error", "semantic-error"], 1),
+    (0, 0, '{"e":"-?"}', ALL3, 0), (0, 0, '{"e":"nul?"}', ["ok", "semantic-error"], 1), (0, 0, '{"h":"tru?"}', ["ok", "semantic-error"], 1), (0, 0, '{"h":"?"}', ["syntax-error", "semantic-error"], 0),
+    (0, 0, '{"i":"\\"?\\""}', ALL3, 1), (0, 0, '{"i":"?"}', ["syntax-error", "semantic-error"], 0), (0, 0, '{"bee":?,"BEE":"x"}', ALL3, 1), (0, 0, '{"a":1,"A":?}', SYN, 1),
+    (0, 0, '{"x":?}', SYN, 0), (0, 0, '{"u":?,"f":?}', SYN, 0), (0, 0, '{"-":"?"}', SYN, 1), (0, 0, '{"a":n?ll}', SYN, 0), (0, 0, '{"a":12?}', ALL3, 1),
+    (0, 0, '{"a":-12?}', ALL3, 0), (0, 0, '{"a":1?0}', ALL3, 1), (0, 0, '{"d":?e0}', ALL3, 0), (0, 0, '{"a":1}?', SYN, 1), (0, 0, '[?]', ["syntax-error", "semantic-error"], 0),
+    (0, 0, '??', ALL3, 1), (0, 0, '{"a":1?"d":2}', SYN, 0), (0, 0, '{"\\u00?1":5}', SYN, 1), (0, 0, '{"??":true}', ALL3, 0), (0, 0, '{"BE?":"z"}', SYN, 0),
+    # embedding
+    (1, 0, '{"?":1}', ALL3, 1), (1, 1, '{"?":2}', ALL3, 1), (1, 0, '{"k":?}', SYN, 1), (1, 0, '{"v":tru?}', SYN, 0), (1, 1, '{"Y":"?"}', SYN, 0), (1, 0, '{"%E2%84?":1}', SYN, 1),
+    (1, 0, '{"x":?,"k":?}', SYN, 0), (1, 0, '{"z":?,"Z":1}', SYN, 0),
+    # maps
+    (2, 0, '{"m":{"?":1}}', SYN, 1), (2, 1, '{"m":{"b":?}}', SYN, 1), (2, 1, '{"m":{"?":1,"?":2}}', SYN, 0), (2, 1, '{"m":nul?}', SYN, 1), (2, 0, '{"m":[?]}', ["syntax-error", "semantic-error"], 0),
+    (2, 0, '{"n":{"??":"x"}}', ALL3, 1), (2, 1, '{"n":{"1?":"y"}}', ALL3, 1), (2, 0, '{"n":{"12?":"x"}}', ALL3, 0), (2, 0, '{"n":{"-?":"x","-1":"y"}}', ALL3, 0), (2, 1, '{"o":{"?":tru?}}', SYN, 0),
+    # slices, arrays, []byte
+    (3, 1, '{"y":"AA??"}', ALL3, 1), (3, 0, '{"y":"?AA="}', ALL3, 0), (3, 1, '{"y":[?]}', ALL3, 1), (3, 1, '{"y":nul?}', SYN, 0), (3, 0, '{"a":[?]}', ALL3, 1), (3, 0, '{"a":[1,2,?]}', SYN, 1),
+    (3, 1, '{"l":[?]}', ALL3, 1), (3, 1, '{"l":[?,?]}', ALL3, 0), (3, 1, '{"l":nul?}', SYN, 0), (3, 0, '{"ba":[?,3]}', ALL3, 1), (3, 0, '{"ba":"AA?="}', ["syntax-error", "semantic-error"], 0),
+    (3, 1, '{"s":[nul?]}', SYN, 1), (3, 1, '{"s":["?"]}', SYN, 0), (3, 1, '{"s":[?]}', ALL3, 0), (3, 0, '{"z":[?]}', SYN, 1), (3, 1, '{"l":[?', ["syntax-error"], 0),
+    # pointers, interfaces
+    (4, 0, '{"p":?}', SYN, 1), (4, 1, '{"p":nul?}', SYN, 1), (4, 1, '{"q":"?"}', SYN, 0), (4, 0, '{"pp":tru?}', SYN, 0), (4, 1, '{"pp":nul?}', SYN, 0), (4, 0, '{"i":?}', SYN, 1),
+    (4, 1, '{"i":[?]}', SYN, 0), (4, 1, '{"i":{"a":?}}', SYN, 0), (4, 1, '{"j":?}', SYN, 1), (4, 1, '{"j":nul?}', SYN, 1), (4, 1, '{"j":"?"}', ["syntax-error", "semantic-error"], 0),
+    (4, 0, '{"ps":"?"}', ALL3, 1), (4, 1, '{"ps":?}', ["syntax-error", "semantic-error"], 0), (4, 1, '{"ps":nul?}', SYN, 0), (4, 1, '{"ps":"nul?"}', ["ok", "semantic-error"], 1),
+    # user methods
+    (5, 0, '{"j":?}', SYN, 1), (5, 0, '{"j": [? ] }', SYN, 1), (5, 1, '{"j":nul?}', SYN, 0), (5, 1, '{"jp":nul?}', SYN, 1), (5, 0, '{"jp":?}', SYN, 0), (5, 0, '{"t":"?"}', SYN, 1),
+    (5, 0, '{"t":"\\?"}', SYN, 0), (5, 0, '{"t":?}', ["syntax-error", "semantic-error"], 1), (5, 0, '{"t":nul?}', SYN, 0), (5, 0, '{"pj":{"B":"AA?="}}', ALL3, 0), (5, 1, '{"k":{"k?":1}}', SYN, 1),
+    (5, 0, '{"k":{"?b":1}}', ALL3, 0),
+    # raw messages
+    (6, 0, '{"r":?}', SYN, 1), (6, 0, '{"r": [?, "?"] }', SYN, 0), (6, 1, '{"r":nul?}', SYN, 1), (6, 0, '{"rp":?}', SYN, 0), (6, 1, '{"rp":nul?}', SYN, 1), (6, 0, '{"ro":"?"}', SYN, 0),
+    (6, 0, '{"v":?}', SYN, 1), (6, 0, '{"v": {"?":?}}', SYN, 0), (6, 1, '{"v":nul?}', SYN, 1),
+    # any
+    (8, 0, '??', SYN, 1), (8, 0, '[?,?]', SYN, 1), (8, 0, '{"?":?}', SYN, 1), (8, 0, '"\\??"', SYN, 0), (8, 0, '"\\u00?0"', SYN, 0), (8, 0, '"\\ud83?"', SYN, 1), (8, 0, '"%E2?"', SYN, 1),
+    (8, 0, '-?.?', SYN, 0), (8, 0, '1e?', SYN, 0), (8, 1, '{"?":1}', SYN, 1), (8, 0, ' ?1? ', SYN, 0), (8, 0, '"\\ud83d\\ud?00"', SYN, 0),
+    # strings
+    (9, 0, '{"s":"??"}', SYN, 1), (9, 0, '{"s":"\\??"}', SYN, 0), (9, 0, '{"s":"%FF?"}', SYN, 1), (9, 1, '{"k":{"?":?}}', SYN, 1), (9, 0, '{"S":?}', ["syntax-error"], 0), (9, 0, '{"s":"\\ud8?0\\udc00"}', SYN, 0),
+]
+# float32/float64 with the `string` option: concrete texts around the float32 / float64 range
+TF = [('{"f":"3.5e38"}', "semantic-error"), ('{"f":"1e39"}', "semantic-error"), ('{"f":"1e300"}', "semantic-error"), ('{"f":"1.5"}', "ok"), ('{"f":"3.4028235e38"}', "ok"),
+      ('{"f":"-3.5e38"}', "semantic-error"), ('{"f":"1e-50"}', "ok"), ('{"g":"1e300"}', "ok"), ('{"g":"1e400"}', "semantic-error"), ('{"h":3.5e38}', "semantic-error"),
+      ('{"h":1.5}', "ok"), ('{"f":1.5}', "semantic-error"), ('{"f":"+1"}', "semantic-error"), ('{"f":"01"}', "semantic-error"), ('{"f":" 1"}', "semantic-error"), ('{"f":"1e5"}', "ok"), ('{"f":"null"}', "ok"),
+      ('{"f":"Inf"}', "semantic-error"), ('{"f":"0x1p-2"}', "semantic-error"), ('{"f":"1_0"}', "semantic-error"), ('{"f":""}', "semantic-error")]
+# Decoder: (skeleton, target, useNumber, disallow, covers, quick?)
+TD = [
+    ('[1 ,?]', 0, False, False, ["decoded", "token", "more", "no-more"], 1),
+    ('{"a":?} 7', 0, False, False, ["decoded", "token", "more"], 1),
+    (' [?]\n[2]', 0, False, False, ["decoded", "token", "more"], 1),
+    ('[1 ,?]', 0, True, False, ["decoded", "token"], 1),
+    ('{"a":1,"?":2} ', 1, False, True, ["decoded", "token", "error"], 1),
+    ('{"a":1,"?":2} ', 1, False, False, ["decoded", "token"], 0),
+    ('?1 ?', 0, False, False, ["decoded", "token", "error"], 1),
+    ('["?",{"b":[?]}]', 0, False, False, ["decoded", "token"], 0),
+    ('1?2', 0, True, False, ["decoded", "token"], 0),
+    ('[tru?,nul?]', 0, False, False, ["decoded", "token"], 0),
+    ('{"a" :? , "b":2}', 0, False, False, ["decoded", "token"], 0),
+    ('[1]?', 0, False, False, ["decoded", "token", "token-eof"], 1),
+]
+# Encoder: (kind, variant, skeleton, indent, escapeHTML, reset, quick?)
+TE = [
+    (7, 4, "?", 0, True, False, 1), (7, 4, "?", 0, False, False, 1), (7, 4, "?", 1, False, True, 1), (7, 4, "?", 2, True, False, 1),
+    (7, 1, "%E2%80?", 0, False, False, 1), (7, 1, "?&", 2, False, True, 0), (0, 0, "?", 1, True, True, 0), (2, 1, "?", 2, False, False, 0), (5, 0, "?", 0, False, False, 1), (6, 0, '{"a" :?}', 1, False, False, 0),
+    (5, 1, "??", 0, False, True, 0), (4, 2, "?", 2, False, False, 0),
+]
+
+
+def typed_obligations(q):
+    L = []
+    kw = dict(max_paths=150000, max_seconds=1500)
+    for kind, var, t, cov, quick in TM:
+        if q and not quick:
+            continue
+        for mode in (0, 1, 2):
+            L.append(ob("tmarshal/k%d/v%d/m%d/%s" % (kind, var, mode, t), "v1", "VerifC09TMarshal", [kind, var, mode, t], covers=cov, **kw))
+    for kind, var, t, cov, quick in TU:
+        if q and not quick:
+            continue
+        L.append(ob("tunmarshal/k%d/v%d/%s" % (kind, var, t), "v1", "VerifC09TUnmarshal", [kind, var, t], covers=cov, **kw))
+    for t, cov in TF:
+        L.append(ob("tunmarshal/float/%s" % t, "v1", "VerifC09TUnmarshal", [7, 0, t], covers=[cov], **kw))
+    for t, target, un, dis, cov, quick in TD:
+        if q and not quick:
+            continue
+        for steps in ([3] if q else [3, 4]):
+            L.append(ob("tdecoder/n%d/t%d/un%d/dis%d/%s" % (steps, target, un, dis, t.replace("\n", "\\n")), "v1", "VerifC09TDecoder", [t, steps, target, un, dis], covers=cov, **kw))
+    for kind, var, t, ind, esc, reset, quick in TE:
+        if q and not quick:
+            continue
+        L.append(ob("tencoder/k%d/v%d/i%d/esc%d/r%d/%s" % (kind, var, ind, esc, reset, t), "v1", "VerifC09TEncoder", [kind, var, t, ind, esc, reset], covers=[], **kw))
     return L
